@@ -41,7 +41,7 @@ MergeAll(f, g) == [k \in DOMAIN f \cup DOMAIN g |->
 TraceInit == /\ l = 1 /\ run = 0 /\ conf = NoFun /\ acc = NoFun /\ inflight = NoFun
              /\ naccepted = 0 /\ nconfirmed = 0 /\ segs = NoFun /\ man = {} /\ gcBefore = 0
              /\ overlap = FALSE /\ fActive = FALSE /\ cActive = FALSE /\ accTombs = NoFun /\ segc = NoFun /\ cin = {} /\ gcOut = {}
-             /\ rc = [saves |-> 0, loaded |-> NoFun, puts |-> NoFun] /\ ckk = {}
+             /\ rc = [saves |-> 0, loaded |-> NoFun, puts |-> NoFun, begun |-> NoFun, ended |-> NoFun, tick |-> 0] /\ ckk = {}
 
 Keep(vs) == UNCHANGED vs
 
@@ -80,7 +80,7 @@ Step(ev) ==
   \/ /\ ev.a = "reset"
      /\ run' = ev.run /\ conf' = NoFun /\ acc' = NoFun /\ inflight' = NoFun /\ naccepted' = 0 /\ nconfirmed' = 0
      /\ segs' = NoFun /\ man' = {} /\ gcBefore' = 0 /\ overlap' = FALSE /\ fActive' = FALSE /\ cActive' = FALSE
-     /\ accTombs' = NoFun /\ segc' = NoFun /\ cin' = {} /\ gcOut' = {} /\ rc' = [saves |-> 0, loaded |-> NoFun, puts |-> NoFun] /\ ckk' = {}
+     /\ accTombs' = NoFun /\ segc' = NoFun /\ cin' = {} /\ gcOut' = {} /\ rc' = [saves |-> 0, loaded |-> NoFun, puts |-> NoFun, begun |-> NoFun, ended |-> NoFun, tick |-> 0] /\ ckk' = {}
   \/ /\ ev.a = "push"
      /\ IF ev.ok THEN /\ acc' = MergeInto(acc, ev.k, JRv(ev.rv))
                       /\ inflight' = MergeInto(inflight, ev.k, JRv(ev.rv))
@@ -92,14 +92,16 @@ Step(ev) ==
      /\ Keep(<<run, conf, nconfirmed, segs, man, gcBefore, overlap, fActive, cActive, segc, cin, gcOut, rc, ckk>>)
   \/ /\ ev.a = "flush_begin"
      /\ fActive' = TRUE /\ overlap' = overlap
-     /\ Keep(<<run, conf, acc, inflight, naccepted, nconfirmed, segs, man, gcBefore, cActive, accTombs, segc, cin, gcOut, rc, ckk>>)
+     /\ rc' = [rc EXCEPT !.begun = Upd(@, "F", [saves |-> rc.saves, tick |-> rc.tick])]
+     /\ Keep(<<run, conf, acc, inflight, naccepted, nconfirmed, segs, man, gcBefore, cActive, accTombs, segc, cin, gcOut, ckk>>)
   \/ /\ ev.a = "flush_end"
      /\ fActive' = FALSE
      /\ IF ev.ok THEN /\ conf' = MergeAll(conf, inflight) /\ inflight' = NoFun /\ nconfirmed' = naccepted
                       /\ (ev.pending # 0 => Verdict("flush ok but deltas still pending"))
         ELSE /\ UNCHANGED <<conf, inflight, nconfirmed>>
              /\ (ev.pending # naccepted - nconfirmed => Verdict("failed flush silently dropped accepted deltas"))
-     /\ Keep(<<run, acc, naccepted, segs, man, gcBefore, overlap, cActive, accTombs, segc, cin, gcOut, rc, ckk>>)
+     /\ rc' = [rc EXCEPT !.ended = Upd(@, "F", rc.tick)]
+     /\ Keep(<<run, acc, naccepted, segs, man, gcBefore, overlap, cActive, accTombs, segc, cin, gcOut, ckk>>)
   \/ /\ ev.a = "shutdown"     \* the pipeline (sink -> bridge -> actor) was shut down gracefully; clean: no fault was injected in the run
      /\ IF ev.clean THEN conf' = MergeAll(conf, inflight) /\ inflight' = NoFun /\ nconfirmed' = naccepted
         ELSE UNCHANGED <<conf, inflight, nconfirmed>>
@@ -107,10 +109,12 @@ Step(ev) ==
   \/ /\ ev.a = "compact_begin"
      /\ cActive' = TRUE /\ overlap' = overlap
      /\ gcBefore' = IF ev.gc_before > gcBefore THEN ev.gc_before ELSE gcBefore
-     /\ cin' = {} /\ Keep(<<run, conf, acc, inflight, naccepted, nconfirmed, segs, man, fActive, accTombs, segc, gcOut, rc, ckk>>)
+     /\ rc' = [rc EXCEPT !.begun = Upd(@, "C", [saves |-> rc.saves, tick |-> rc.tick])]
+     /\ cin' = {} /\ Keep(<<run, conf, acc, inflight, naccepted, nconfirmed, segs, man, fActive, accTombs, segc, gcOut, ckk>>)
   \/ /\ ev.a = "compact_end"
      /\ cActive' = FALSE
-     /\ Keep(<<run, conf, acc, inflight, naccepted, nconfirmed, segs, man, gcBefore, overlap, fActive, accTombs, segc, cin, gcOut, rc, ckk>>)
+     /\ rc' = [rc EXCEPT !.ended = Upd(@, "C", rc.tick)]
+     /\ Keep(<<run, conf, acc, inflight, naccepted, nconfirmed, segs, man, gcBefore, overlap, fActive, accTombs, segc, cin, gcOut, ckk>>)
   \/ /\ ev.a = "call"
      /\ segs' = IF ev.op = "put" /\ ev.kind = "seg" /\ ev.res # "fail"
                   THEN Upd(segs, ev.id, IF ev.res = "ok" THEN "ok" ELSE "partial")
@@ -131,17 +135,27 @@ Step(ev) ==
                  ELSE gcOut
      /\ ckk' = IF ev.op = "put" /\ ev.kind = "ckpt" /\ ev.res = "ok" /\ "ckeys" \in DOMAIN ev THEN Range(ev.ckeys) ELSE ckk
      (* the listed race (no compare-and-set on the manifest, segment ids allocated from stale copies) has happened when somebody   *)
-     (* saves a manifest it loaded before somebody else's save, or writes a segment key the other one has written (either can only  *)
-     (* happen when a flush and a compaction overlapped); overlapping alone explains nothing                                        *)
+     (* saves a manifest it loaded before a save that somebody else made WHILE its own operation was under way, or writes a segment  *)
+     (* key the other one wrote during that time; overlapping alone explains nothing, and neither does a stale copy kept from an     *)
+     (* earlier operation (no save fell into this one: that is not the race, whatever else it is)                                   *)
      /\ LET isSave == (ev.op = "rename" /\ ev.res \in {"ok", "applied"}) \/ (ev.op = "put" /\ ev.kind = "man" /\ ev.res = "ok" /\ "segs" \in DOMAIN ev)
             isLoad == ev.op = "get" /\ ev.kind = "man" /\ ev.res = "ok"
             isPut == ev.op = "put" /\ ev.kind = "seg" /\ ev.res # "fail"
             loadedOf == IF ev.who \in DOMAIN rc.loaded THEN rc.loaded[ev.who] ELSE 0
-            stale == isSave /\ loadedOf < rc.saves
-            dbl == isPut /\ ev.id \in DOMAIN rc.puts /\ rc.puts[ev.id] # ev.who
-        IN /\ rc' = [saves |-> rc.saves + (IF isSave THEN 1 ELSE 0),
-                      loaded |-> IF isLoad THEN Upd(rc.loaded, ev.who, rc.saves) ELSE rc.loaded,
-                      puts |-> IF isPut THEN Upd(rc.puts, ev.id, ev.who) ELSE rc.puts]
+            (* where the actor's current operation began (flush_begin / compact_begin); an actor without such an event: its last load *)
+            begunSaves == IF ev.who \in DOMAIN rc.begun THEN rc.begun[ev.who].saves ELSE loadedOf
+            begunTick == IF ev.who \in DOMAIN rc.begun THEN rc.begun[ev.who].tick ELSE 0
+            (* somebody else saved the manifest WHILE this operation was under way, and this actor still writes the copy it loaded before *)
+            stale == isSave /\ loadedOf < rc.saves /\ begunSaves < rc.saves
+            (* the other actor wrote this segment key while this operation was under way (or the other way round) *)
+            dbl == isPut /\ ev.id \in DOMAIN rc.puts /\ rc.puts[ev.id].who # ev.who
+                   /\ LET o == rc.puts[ev.id].who IN
+                         \/ (o = "F" /\ fActive) \/ (o = "C" /\ cActive)                 \* the other one is still at it
+                         \/ (o \in DOMAIN rc.ended /\ rc.ended[o] > begunTick)          \* or it ended after this operation began
+        IN /\ rc' = [rc EXCEPT !.saves = @ + (IF isSave THEN 1 ELSE 0),
+                                !.loaded = IF isLoad THEN Upd(@, ev.who, rc.saves) ELSE @,
+                                !.puts = IF isPut THEN Upd(@, ev.id, [who |-> ev.who, tick |-> rc.tick]) ELSE @,
+                                !.tick = @ + 1]
            /\ overlap' = (overlap \/ stale \/ dbl)
      /\ Keep(<<run, conf, acc, inflight, naccepted, nconfirmed, gcBefore, fActive, cActive, accTombs>>)
   \/ /\ ev.a = "crashcheck"
